@@ -45,15 +45,18 @@ DEFSETS = [
 
 
 def queries(tier, seed=0):
-    shapes = [Shape([2, 1], 2, 2, 2), Shape([1, 2, 1], 2, 2, 2)]
+    shapes = [Shape([2, 1], 2, 2, 2), Shape([1, 2, 1], 2, 2, 2), Shape([1, 2], 2, 2, 2, (6, 5))]
     if tier != 'quick':
         shapes += [Shape([1, 1], 2, 2, 2), Shape([3, 1], 3, 2, 2)]
-    defsets = DEFSETS[:2] if tier == 'quick' else DEFSETS
     qs = []
-    for sh in shapes:
-        for di, ds in enumerate(defsets):
+    for si, sh in enumerate(shapes):
+        for di, ds in enumerate(DEFSETS):
+            if tier == 'quick' and di == 2 and si != 0:
+                continue
             for kind in ('flat', 'param', 'mask'):
                 if kind == 'mask' and di > 0:
+                    continue
+                if kind == 'param' and di == 2 and tier == 'quick':
                     continue
                 qs.append(dict(kind=kind, shape=sh.to_json(), defs=di))
     return qs
@@ -130,6 +133,18 @@ def run(src, q):
         r.mask = [sx.znum(c) for c in (mask.cells() if isinstance(mask, npmodel.SArray) else mask)]
         r.targets = [a.target for a in env.action_space.actions]
         r.n = int(env.action_space.n)
+        # the mask follows the current state: after a step and after a reset
+        scan = [a for a in env.action_space.actions if a.is_subnet_scan() and a.target == w.addrs[0]][0]
+        with stubs.ScriptedRand([], default=0.0):
+            with stubs.sut():
+                env.step(scan)
+                mask2 = env.get_action_mask()
+        r.mask_after_step = [sx.znum(c) for c in (mask2.cells() if isinstance(mask2, npmodel.SArray) else mask2)]
+        r.disc_after_step = scen.read_status(w, env.current_state)
+        with stubs.sut():
+            env.reset()
+            mask3 = env.get_action_mask()
+        r.mask_after_reset = [sx.znum(c) for c in (mask3.cells() if isinstance(mask3, npmodel.SArray) else mask3)]
         return r
     # parameterised space
     with stubs.sut():
@@ -214,6 +229,15 @@ def obligations(r):
         for i, t in enumerate(r.targets):
             cs.append(r.mask[i] == z3.If(r.st[tuple(t)]['disc'] == 1, 1, 0))
         obl.append(('mask_is_discovered_of_target', z3.And(cs)))
+        if len(r.mask_after_step) == r.n and len(r.mask_after_reset) == r.n:
+            obl.append(('mask_follows_state_after_step', z3.And(
+                [r.mask_after_step[i] == z3.If(r.disc_after_step[tuple(t)]['disc'] == 1, 1, 0)
+                 for i, t in enumerate(r.targets)])))
+            obl.append(('mask_follows_state_after_reset', z3.And(
+                [r.mask_after_reset[i] == z3.If(scen.public(w, tuple(t)[0]), 1, 0)
+                 for i, t in enumerate(r.targets)])))
+        else:
+            obl.append(('mask_length_after_step_and_reset', z3.BoolVal(False)))
         return obl
     # parameterised decode
     v = r.vec
